@@ -113,7 +113,7 @@ const HORIZON: usize = 400;
 
 /// One execution under the choice vector `prefix` (then default answer 0 everywhere).
 pub fn run_once(setup: &Setup, prefix: &[usize]) -> Exec {
-    let sched = Sched::new(2, setup.spurious, if setup.policy == WakerPolicy::Choose { setup.env } else { 0 }, prefix, HORIZON);
+    let sched = Sched::new(2, setup.spurious, if setup.policy == WakerPolicy::Choose { setup.env } else { 0 }, prefix, HORIZON + 16 * setup.program.len());
     let mut rb = http::Request::builder().method("GET").uri("/");
     if setup.gzip {
         rb = rb.header("accept-encoding", "gzip");
@@ -347,7 +347,7 @@ pub fn judge(setup: &Setup, x: &Exec) -> Vec<Finding> {
             return out;
         }
         End::Horizon => {
-            out.push(fnd(&["C10"], "horizon", format!("no termination within {HORIZON} scheduling steps")));
+            out.push(fnd(&["C10"], "horizon", format!("no termination within {} scheduling steps", HORIZON + 16 * setup.program.len())));
             return out;
         }
         End::Stuck => {
@@ -654,6 +654,22 @@ pub fn families(tier: Tier, for_c11: bool) -> Vec<Family> {
             fams.push(Family { name: "raw/periodic/env", setups: progs.iter().cloned().map(|p| mk(p, WakerPolicy::Choose, 1, 1, None, false, false)).collect(), bound: Some(tier.pick(2, 3)), cap: 100_000 });
             fams.push(Family { name: "raw/periodic/fresh", setups: progs.into_iter().map(|p| mk(p, WakerPolicy::AlwaysFresh, 1, 0, None, false, false)).collect(), bound: Some(tier.pick(2, 3)), cap: 100_000 });
         }
+        // bursts: many chunks queued before the consumer gets to run, then abort / flush / nothing
+        {
+            let burst = |ks: &[usize]| -> Vec<Vec<POp>> {
+                let mut progs: Vec<Vec<POp>> = Vec::new();
+                for &k in ks {
+                    for tail in [vec![], vec![POp::A], vec![POp::W(1), POp::F], vec![POp::Wait], vec![POp::Wait, POp::W(1), POp::F]] {
+                        let mut p = vec![POp::W(c); k];
+                        p.extend(tail);
+                        progs.push(p);
+                    }
+                }
+                progs
+            };
+            fams.push(Family { name: "raw/burst", setups: burst(&[9, 12, 16, 17]).into_iter().map(|p| mk(p, WakerPolicy::Choose, 0, 0, None, false, false)).collect(), bound: Some(tier.pick(2, 3)), cap: 200_000 });
+            fams.push(Family { name: "raw/burst-long", setups: burst(&[33, 65, 70]).into_iter().map(|p| mk(p, WakerPolicy::Choose, 0, 0, None, false, false)).collect(), bound: Some(tier.pick(1, 2)), cap: 200_000 });
+        }
         // abort programs
         fams.push(Family { name: "raw/abort", setups: programs(&alpha_abort, tier.pick(3, 4)).into_iter().filter(|p| p.contains(&POp::A)).map(|p| mk(p, WakerPolicy::Choose, 1, 1, None, false, false)).collect(), bound: tier.pick(Some(2), None), cap: 200_000 });
         if tier == Tier::Thorough {
@@ -667,6 +683,8 @@ pub fn families(tier: Tier, for_c11: bool) -> Vec<Family> {
         fams.push(Family { name: "gzip/bound", setups: programs(&galpha, tier.pick(2, 3)).into_iter().map(|p| mk(p, WakerPolicy::Choose, 1, 1, None, true, false)).collect(), bound: Some(tier.pick(2, 3)), cap: 400_000 });
     } else {
         fams.push(Family { name: "raw/abort", setups: programs(&alpha_abort, tier.pick(3, 4)).into_iter().filter(|p| p.contains(&POp::A)).map(|p| mk(p, WakerPolicy::Choose, 1, 1, None, false, true)).collect(), bound: Some(2), cap: 200_000 });
+        // bursts of queued chunks followed by abort (the abort may land inside any consumer poll)
+        fams.push(Family { name: "raw/burst+abort", setups: [9usize, 12, 16, 17, 33].iter().map(|k| { let mut p = vec![POp::W(c); *k]; p.push(POp::A); mk(p, WakerPolicy::Choose, 0, 0, None, false, true) }).collect(), bound: Some(tier.pick(2, 3)), cap: 300_000 });
         let mut v = Vec::new();
         for j in 0..=2usize {
             for p in programs(&[POp::W(1), POp::W(c), POp::F, POp::A], tier.pick(3, 4)) {
